@@ -169,7 +169,10 @@ def drive_programs(spec, handle_batch, stats: core.Stats, max_parts=3):
         if not seeds and not sast:
             stats.discard("no-seed:" + cid)
             continue
-        strat = st.lists(progspace.program_case(cid, seeds, sast, max_parts=max_parts), min_size=spec["batch"], max_size=spec["batch"])
+        # one semgrep invocation costs more than 30 transformer applications: rule-detected codemods get
+        # three times as many programs per CLI run
+        bsz = spec["batch"] * (3 if kind == "rule" else 1)
+        strat = st.lists(progspace.program_case(cid, seeds, sast, max_parts=max_parts), min_size=bsz, max_size=bsz)
 
         def fn(cases, cid=cid, kind=kind):
             rendered = []
@@ -184,7 +187,7 @@ def drive_programs(spec, handle_batch, stats: core.Stats, max_parts=3):
             if rendered:
                 handle_batch(cid, kind, rendered)
 
-        n = spec["n"] if kind != "rule" else max(1, spec["n"] // 2)
+        n = spec["n"] if kind != "rule" else max(2, spec["n"] // 2)
         core.drive(strat, fn, n, spec["seed"] + (hash_str(cid) % 997))
 
 
